@@ -319,6 +319,29 @@ class FactsChecker:
         return [self.check(*t) for t in triples]
 
 
+def make_resolver(rc):
+    """rc = {"graph": {...}, "async": bool, "down": bool} -> a StaticRoleResolver whose backend can be switched off
+    (expand raises while down: Guard logs it and keeps the subject's own roles), sync or async flavour."""
+    from rbacx.core.roles import StaticRoleResolver
+
+    class Flaky(StaticRoleResolver):
+        def __init__(self, graph, down):
+            super().__init__(copy.deepcopy(graph))
+            self.down = bool(down)
+
+        def expand(self, roles):
+            if self.down:
+                raise ConnectionError("directory unavailable")
+            return super().expand(roles)
+
+    class FlakyAsync(Flaky):
+        async def expand(self, roles):  # type: ignore[override]
+            await asyncio.sleep(0)
+            return Flaky.expand(self, roles)
+
+    return (FlakyAsync if rc.get("async") else Flaky)(rc.get("graph") or {}, rc.get("down"))
+
+
 async def run_history(case, clock):
     """-> per evaluation {"hit", "cached", "uncached"}"""
     from rbacx.core.engine import Guard
@@ -328,8 +351,18 @@ async def run_history(case, clock):
     facts = case.get("facts") or []
     cfgs = [case["g1"], case["g2"]]
     pols = [copy.deepcopy(cfgs[0]["policy"]), copy.deepcopy(cfgs[1]["policy"])]
-    guards = [Guard(pols[w], cache=cache, cache_ttl=cfgs[w]["ttl"], strict_types=bool(cfgs[w]["strict"]),
-                    relationship_checker=FactsChecker(facts)) for w in (0, 1)]
+    # collaborators: one relationship checker; one role resolver per guard when the configuration names one.
+    # The uncached twin of an evaluation gets the SAME collaborator objects as the guard it mirrors.
+    resolvers = [make_resolver(c["resolver"]) if c.get("resolver") is not None else None for c in cfgs]
+
+    def collab(w):
+        kw = {"relationship_checker": FactsChecker(facts)}
+        if resolvers[w] is not None:
+            kw["role_resolver"] = resolvers[w]
+        return kw
+
+    guards = [Guard(pols[w], cache=cache, cache_ttl=cfgs[w]["ttl"], strict_types=bool(cfgs[w]["strict"]), **collab(w))
+              for w in (0, 1)]
     out = []
     for op in case["h"]:
         k = op[0]
@@ -341,9 +374,8 @@ async def run_history(case, clock):
             except Exception as e:  # noqa: BLE001
                 cd = ["Raise", type(e).__name__]
             hit = bool(cache.gets[n0:] and cache.gets[-1])
-            # the judge: a fresh engine without a cache, same current policy, same type mode
-            fresh = Guard(copy.deepcopy(pols[w]), strict_types=bool(cfgs[w]["strict"]),
-                          relationship_checker=FactsChecker(facts))
+            # the judge: a fresh engine without a cache, same current policy, same type mode, same collaborators
+            fresh = Guard(copy.deepcopy(pols[w]), strict_types=bool(cfgs[w]["strict"]), **collab(w))
             try:
                 ud = dec_dict(await fresh.evaluate_async(*call_args(op[2])))
             except Exception as e:  # noqa: BLE001
@@ -359,6 +391,19 @@ async def run_history(case, clock):
             guards[op[1]].clear_cache()
         elif k == "t":
             clock.now += float(op[1])
+        elif k in ("grant", "revoke", "down", "up"):
+            r = resolvers[op[1]]
+            if r is None:
+                continue
+            if k == "grant":      # the role hierarchy is edited in place: op[2] now inherits op[3]
+                ps = r.graph.setdefault(op[2], [])
+                if op[3] not in ps:
+                    ps.append(op[3])
+            elif k == "revoke":
+                if op[3] in r.graph.get(op[2], []):
+                    r.graph[op[2]].remove(op[3])
+            else:
+                r.down = k == "down"
         else:
             raise ValueError("bad op " + repr(op))
     return out
@@ -575,6 +620,10 @@ def describe(op):
         return "set_policy(guard %d, ...)" % (op[1] + 1)
     if op[0] == "c":
         return "clear_cache(guard %d)" % (op[1] + 1)
+    if op[0] in ("grant", "revoke"):
+        return "%s: role %r %s %r in the resolver of guard %d" % (op[0], op[2], "inherits" if op[0] == "grant" else "no longer inherits", op[3], op[1] + 1)
+    if op[0] in ("down", "up"):
+        return "role resolver of guard %d goes %s" % (op[1] + 1, op[0])
     return "clock += %s s" % op[1]
 
 
@@ -586,32 +635,26 @@ def has_nonjson(x):
     return not (x is None or isinstance(x, (bool, int, float, str)))
 
 
-def observe(chk, case):
-    """corpus entries marked observe_only: histories OUTSIDE the statement's quantifier (they must contain a value that
-    is not JSON).  Run on the implementation only; a difference is recorded in the evidence, never reported."""
-    res = _shard([strip(case)])[0]
-    diff = [i for i, r in enumerate(res) if canon(r["cached"]) != canon(r["uncached"])]
-    chk.count("observation:nonjson_key_collision:" + ("reproduced" if diff else "not_reproduced"))
-    chk.extra.setdefault("observations_outside_quantifier", []).append(
-        {"what": case.get("what", "non-JSON value in a request"), "cached_differs_from_uncached_at_evaluations": diff,
-         "answers": lib.jsonable(res)})
+def impl_only(case):
+    """histories the Coq model does not speak about (it has no role resolver and only JSON values): judged on the
+    implementation alone — engine with the cache vs its uncached twin — which is the direct reading of the property"""
+    if case["g1"].get("resolver") is not None or case["g2"].get("resolver") is not None:
+        return "resolver"
+    if has_nonjson([op[2] for op in case["h"] if op[0] == "e"]):
+        return "nonjson"
+    return None
 
 
 def check_cases(chk, cases, replay=False):
     sort = detect_sort()
     chk.extra["model_switch_sort_keys"] = sort
     cases = [expand(c) for c in cases]
-    for c in cases:
-        if c.get("observe_only") and has_nonjson([op[2] for op in c["h"] if op[0] == "e"]):
-            observe(chk, c)
-    cases = [c for c in cases if not (c.get("observe_only") and has_nonjson([op[2] for op in c["h"] if op[0] == "e"]))]
-    if not cases:
-        return
+    modelled = [i for i, c in enumerate(cases) if impl_only(c) is None]
     box = {}
 
     def _model():
         try:
-            box["outs"] = model_run(cases, sort)
+            box["outs"] = model_run([cases[i] for i in modelled], sort)
         except BaseException as e:  # noqa: BLE001
             box["err"] = e
 
@@ -620,7 +663,9 @@ def check_cases(chk, cases, replay=False):
     th.join()
     if "err" in box:
         raise box["err"]
-    outs = box["outs"]
+    outs = [None] * len(cases)
+    for i, m in zip(modelled, box["outs"]):
+        outs[i] = m
     for c, res, m in zip(cases, impls, outs):
         nev = len(res)
         hits = sum(1 for r in res if r["hit"])
@@ -632,7 +677,8 @@ def check_cases(chk, cases, replay=False):
         chk.count("evaluations", nev)
         chk.count("hits", hits)
         for op in c["h"]:
-            chk.count("op:" + {"e": "evaluate", "p": "set_policy", "c": "clear_cache", "t": "tick"}[op[0]])
+            chk.count("op:" + {"e": "evaluate", "p": "set_policy", "c": "clear_cache", "t": "tick", "grant": "resolver_grant",
+                               "revoke": "resolver_revoke", "down": "resolver_down", "up": "resolver_up"}[op[0]])
         for r in res:
             d = r["cached"]
             chk.count("decision:" + ("raise" if isinstance(d, list) else "%s/%s" % (d["effect"], d["reason"])))
@@ -662,9 +708,19 @@ def check_cases(chk, cases, replay=False):
                                      or canon(sres[sbad]["cached"].get(k)) != canon(sres[sbad]["uncached"].get(k)))),
                           strip(small), impl=sres, model=m if small is c else None,
                           note="cached vs uncached compared on the implementation alone (theorem c08_transparent is "
-                               "what the model proves); outside the class of F16")
+                               "what the model proves); outside the class of F16"
+                               + ("; the history carries a value that is not JSON: this is the behaviour of fixed finding F26 "
+                                  "(cache key built with default=str)" if impl_only(c) == "nonjson" else "")
+                               + ("; the engines have a role resolver: the uncached twin uses the same resolver object"
+                                  if impl_only(c) == "resolver" else ""))
             continue
         # 2. correspondence with the model
+        if m is None:
+            why = impl_only(c)
+            chk.count("judged_on_implementation_only:" + why)
+            chk.extra.setdefault("families_without_model_comparison", {})
+            chk.extra["families_without_model_comparison"][why] = chk.extra["families_without_model_comparison"].get(why, 0) + 1
+            continue
         if not (isinstance(m, list) and len(m) == 2 and len(m[0]) == nev and len(m[1]) == nev):
             chk.corr_break("model runner: unexpected answer shape", strip(c), impl=res, model=m, theorems=THEOREMS)
             continue
@@ -705,11 +761,18 @@ def enum_words(nletters, maxlen, minlen=1):
         yield from itertools.product(range(nletters), repeat=n)
 
 
-def enum_family(c, quads, maxlen, fam):
+def enum_family(c, quads, maxlen, fam, top_stride=1, offset=0):
+    """all words of length <= maxlen; with top_stride > 1 only every top_stride-th word of length maxlen (a seeded
+    residue class), all shorter ones"""
     nl = len(letters(c))
+    n = 0
     for q in quads:
         for wd in enum_words(nl, maxlen):
-            yield {"fam": fam, "cfg": c, "quad": q, "word": list(wd)}
+            if len(wd) == maxlen and top_stride > 1:
+                n += 1
+                if (n + offset) % top_stride:
+                    continue
+            yield {"fam": fam if len(wd) < maxlen or top_stride == 1 else fam + "-top-sampled", "cfg": c, "quad": q, "word": list(wd)}
 
 
 def sample_family(rng, configs, n, lo, hi, fam):
@@ -764,7 +827,7 @@ def random_history(rng, lo, hi):
             "facts": FACTS, "h": h}
 
 
-def pair_cases():
+def pair_cases(quick=True):
     """every pair of pool requests, evaluated one after the other under one policy with a large cache:
     the second lookup hits iff the two requests have one cache key (the near-duplicate sweep); plus the same pair
     on two guards of different type mode sharing the cache."""
@@ -772,7 +835,7 @@ def pair_cases():
         for strict in (False, True):
             for a in range(len(REQS)):
                 for b in range(a, len(REQS)):
-                    if pn != "num" and (a * 31 + b * 17 + len(pn)) % 4:   # all pairs for "num", a quarter for the others
+                    if pn != "num" and (a * 31 + b * 17 + len(pn)) % (8 if quick else 4):   # all pairs for "num", an eighth (thorough: a quarter) for the others
                         continue
                     yield {"fam": "pairs", "cache": ["lru", BIG], "g1": {"strict": strict, "policy": POL[pn], "ttl": None},
                            "g2": {"strict": not strict, "policy": POL[pn], "ttl": None}, "facts": FACTS,
@@ -798,6 +861,107 @@ def replacement_cases():
                        "g2": {"strict": strict, "policy": pb, "ttl": None}, "facts": FACTS, "h": h}
 
 
+# --------------------------------------------------------------------------
+# engines with a role resolver (judged on the implementation alone)
+# --------------------------------------------------------------------------
+RPOL = {
+    "ra": {"algorithm": "deny-overrides", "rules": [
+        _rule("ra1", "permit", condition={"hasAny": [ROLES, ["employee"]]}),
+        _rule("ra2", "permit", actions=["write"], condition={"hasAll": [ROLES, ["manager", "employee"]]}),
+        _rule("ra3", "deny", actions=["read", "write"], condition={"in": ["intern", ROLES]})]},
+    "rb": {"algorithm": "first-applicable", "rules": [
+        _rule("rb1", "permit", condition={"==": [ROLES, ["employee", "manager", "user"]]}),
+        _rule("rb2", "deny", condition={"==": [ROLES, ["manager"]]}),
+        _rule("rb3", "permit", actions=["read", "write"], condition={"hasAny": [ROLES, ["user", "employee"]]}),
+        _rule("rb4", "deny", actions=["*"], resource={})]},
+    "rc": {"algorithm": "permit-overrides", "policies": [
+        {"id": "s1", "algorithm": "deny-overrides", "rules": [
+            _rule("rc1", "permit", condition={"contains": [ROLES, "user"]}, obligations=[{"type": "require_mfa"}])]},
+        {"id": "s2", "algorithm": "first-applicable", "rules": [
+            _rule("rc2", "permit", actions=["write"], condition={"in": [ROLES, ["manager", "admin"]]})]}]},
+}
+GRAPH_FULL = {"manager": ["employee"], "employee": ["user"]}
+GRAPH_FLAT = {"employee": ["user"]}
+RREQS = [mkreq(roles=["manager"]), mkreq(roles=["employee"]), mkreq(roles=["manager"], action="write"),
+         mkreq(roles=["manager", "employee"]), mkreq(roles=["employee", "manager"]), mkreq(roles=["intern", "manager"]),
+         mkreq(roles=[]), mkreq(roles=["user"], ctx={"mfa": True}), mkreq(roles=["manager"], ctx={"mfa": True}),
+         mkreq(roles=["employee", "user"]), mkreq(roles=["user", "employee"], action="write")]
+
+
+def rcfg(cache=("lru", 2), ttl=TTL, two=None, graph1=None, graph2=None, down1=False, asyn=False, strict=False):
+    """two: None = one engine; "graph" = second engine, same policy text, another role hierarchy;
+    "policy" = second engine with another policy (and its own resolver)"""
+    return {"cache": list(cache), "ttl": ttl, "two": two, "graph1": GRAPH_FULL if graph1 is None else graph1,
+            "graph2": GRAPH_FLAT if graph2 is None else graph2, "down1": down1, "async": asyn, "strict": strict}
+
+
+def rletters(c):
+    if not c["two"]:
+        return [("e", 0, 0), ("e", 0, 1), ("e", 0, 2), ("grant", 0, "manager", "employee"), ("revoke", 0, "manager", "employee"),
+                ("down", 0), ("up", 0), ("p", 0, 0), ("p", 0, 1), ("c", 0), ("t", PAST)]
+    return [("e", 0, 0), ("e", 0, 2), ("e", 1, 0), ("e", 1, 2), ("revoke", 0, "manager", "employee"),
+            ("grant", 1, "manager", "employee"), ("down", 0), ("up", 0), ("p", 1, 1), ("c", 1), ("t", PAST)]
+
+
+def rexpand(c, word, fam):
+    pols = [RPOL["ra"], RPOL["rb"]]
+    h = []
+    for i in word:
+        x = rletters(c)[i]
+        if x[0] == "e":
+            h.append(["e", x[1], RREQS[x[2]]])
+        elif x[0] == "p":
+            h.append(["p", x[1], pols[x[2]]])
+        else:
+            h.append(list(x))
+    res = lambda g, down: {"graph": g, "async": c["async"], "down": down}  # noqa: E731
+    return {"fam": fam, "cache": c["cache"],
+            "g1": {"strict": c["strict"], "policy": pols[0], "ttl": c["ttl"], "resolver": res(c["graph1"], c["down1"])},
+            "g2": {"strict": c["strict"], "policy": pols[1] if c["two"] == "policy" else pols[0], "ttl": c["ttl"],
+                   "resolver": res(c["graph2"] if c["two"] else c["graph1"], False)},
+            "facts": [], "h": h, "_key": (fam, json.dumps(c, sort_keys=True), tuple(word))}
+
+
+def resolver_enum(configs, maxlen, fam="resolver-enum"):
+    for c in configs:
+        for wd in enum_words(len(rletters(c)), maxlen):
+            yield rexpand(c, wd, fam)
+
+
+def resolver_random(rng, lo, hi):
+    two = rng.choice([None, None, "graph", "policy"])
+    names = rng.sample(sorted(RPOL), 2)
+    graphs = [GRAPH_FULL, GRAPH_FLAT, {}, {"manager": ["employee", "admin"], "intern": ["user"], "employee": ["user"]}]
+    edges = [("manager", "employee"), ("employee", "user"), ("intern", "employee"), ("user", "manager"), ("manager", "admin")]
+    reqs = rng.sample(RREQS, rng.choice([2, 3, 5]))
+    h = []
+    for _ in range(rng.randint(lo, hi)):
+        x = rng.random()
+        w = rng.randrange(2) if two else 0
+        if x < 0.50:
+            h.append(["e", w, rng.choice(reqs)])
+        elif x < 0.70:
+            h.append([rng.choice(["grant", "revoke"]), w] + list(rng.choice(edges)))
+        elif x < 0.80:
+            h.append([rng.choice(["down", "up", "up"]), w])
+        elif x < 0.88:
+            h.append(["p", w, RPOL[rng.choice(sorted(RPOL))]])
+        elif x < 0.93:
+            h.append(["c", w])
+        else:
+            h.append(["t", rng.choice([BELOW, PAST, 100])])
+    asyn = rng.random() < 0.4
+    cache = rng.choice([["lru", 1], ["lru", 2], ["lru", BIG], ["dict"], ["pickle"]])
+    ttl = rng.choice([None, 0, TTL, 300])
+    strict = rng.random() < 0.3
+    g = lambda pn, gr, down: {"strict": strict, "policy": RPOL[pn], "ttl": ttl,  # noqa: E731
+                              "resolver": {"graph": gr, "async": asyn, "down": down}}
+    g1graph = rng.choice(graphs)
+    return {"fam": "resolver-random", "cache": cache, "g1": g(names[0], g1graph, rng.random() < 0.2),
+            "g2": g(names[1] if two == "policy" else names[0], rng.choice(graphs) if two else g1graph, False),
+            "facts": [], "h": h}
+
+
 def corpus_cases():
     d = lib.VERIF / "corpus" / "C08"
     out = []
@@ -808,8 +972,6 @@ def corpus_cases():
                 what = c.get("what")
                 c = lib.unjson(c["case"] if "case" in c else c)
                 c["fam"] = "corpus:" + f.stem
-                if data.get("observe_only"):
-                    c["observe_only"], c["what"] = True, what
                 out.append(c)
     return out
 
@@ -834,24 +996,37 @@ def run(chk):
     rng = chk.rng
     chk.rule = ("histories of {evaluate(guard, request), set_policy/update_policy(guard, policy), clear_cache(guard), "
                 "clock += 3 s (past the 2 s TTL), clock += 1 s} on one or two Guards sharing one cache. Enumerated completely: "
-                "all histories of length <= 4 (thorough: <= 5) over the 9-letter one-guard alphabet {eval r1..r4, set A, set B, "
+                "all histories of length <= 3 plus a seeded third of those of length 4 (thorough: ALL of length <= 5) over the 9-letter one-guard alphabet {eval r1..r4, set A, set B, "
                 "clear, tick past, tick below} for each of 7 quadruples of near-duplicate requests (1 / 1.0 / True / '1'; role "
                 "order and roles-vs-attribute; key order of an object-valued attribute; contexts deciding obligations; id types "
-                "and id-vs-attribute) with DefaultInMemoryCache(2), cache_ttl=2; all histories of length <= 3 (thorough: <= 4 "
-                "for three of the quadruples) over the 12-letter two-guard alphabet for second guard = other policy / same "
+                "and id-vs-attribute) with DefaultInMemoryCache(2), cache_ttl=2; all histories of length <= 2 plus a seeded half of "
+                "those of length 3 (thorough: ALL of length <= 4 for three of the quadruples, <= 3 for the others) over the 12-letter two-guard alphabet for second guard = other policy / same "
                 "policy in the other type mode, caches LRU(1), LRU(2), dict, pickling; thorough also length <= 4 one-guard "
                 "histories on LRU(1) strict, LRU(64) no TTL, dict, pickling; all unordered pairs of the %d-request pool; A->B->A replacement scripts; a "
                 "seeded sample of words across capacities {0,1,2,64}, TTL {None,0,2}, both type modes, one/two guards; seeded "
                 "random histories of length <= 60 over 14 policies (first-applicable / deny- / permit-overrides, policy sets, "
-                "obligations that fail and succeed, rel, between). Every evaluation is compared with a fresh uncached Guard "
-                "(all Decision fields, type-exact) and with the model (hit flag + Decision). non-trivial = at least one "
+                "obligations that fail and succeed, rel, between). Engines WITH A ROLE RESOLVER (judged on the implementation alone, no model "
+                "comparison): StaticRoleResolver over a small hierarchy, sync and async, that can be switched off (expand raises; "
+                "Guard falls back to the subject's own roles); policies testing subject.roles by hasAny/hasAll/in/==/contains; "
+                "alphabet {eval r1..r3, grant / revoke the edge manager->employee in place, resolver down, resolver up, set A, "
+                "set B, clear, tick}: all histories of length <= 3 (thorough <= 4) for 4 one-engine configurations (LRU(2), "
+                "LRU(64) async initially down, dict, pickling strict) and 3 two-engine configurations sharing the cache (same "
+                "policy text with another hierarchy; another policy), plus seeded random histories of length 6-40. "
+                "Every evaluation is compared with a fresh uncached Guard holding the same current policy and the same collaborator "
+                "objects (all Decision fields, type-exact) and, where the model speaks, with the model (hit flag + Decision). non-trivial = at least one "
                 "evaluation of the history was served from the cache; distinct = distinct (configuration, history)" % len(REQS))
     chk.assumptions = [
-        "requests and policies are JSON values (None, bool, int, float, str, list, dict with str keys); values json.dumps can "
-        "only print through default=str (datetime, set, tuple-vs-list, non-str keys) are outside the quantifier and not generated",
+        "requests and policies are JSON values (None, bool, int, float, str, list, dict with str keys) in the generated families; "
+        "the corpus also replays a history with a datetime-valued context entry (fixed finding F26): cached and uncached "
+        "answers must agree there too, judged on the implementation alone",
         "both guards use the built-in obligation checker (a second guard with ANOTHER checker sharing a reference-storing cache "
         "is outside the statement's quantifier; the model exhibits the leak of raw['reason'] there: c08_other_checker_leaks)",
-        "the relationship checker is a fixed set of facts (no state); no role resolver",
+        "the relationship checker is a fixed set of facts (no state)",
+        "role resolver: read as part of 'the same engine configuration' — the uncached engine the statement compares with holds "
+        "the same current policy AND the same collaborator objects at the same point of the history, so a resolver whose answers "
+        "change (hierarchy edited in place, backend down and up again) is inside the quantifier: the cached engine must follow it, "
+        "which the code does by putting the EXPANDED roles into the key. These histories are judged on the implementation alone "
+        "(the Coq model has no resolver; Engine.build_env takes the resolver's answer as an argument)",
         "time.monotonic is scripted (constant during an operation); clock readings and TTLs are small integers, exact in floats",
         "sequential histories: no set_policy runs during an evaluation (C09 covers the races)",
         "policy tags: sha3_256 is assumed collision-free on the policies of a history (hypothesis tag_inj of the theorems)",
@@ -862,24 +1037,39 @@ def run(chk):
     if cc:
         check_cases(chk, cc)
     one = cfg(("lru", 2), TTL, False)
-    fams = [enum_family(one, QUAD_NAMES, 4 if quick else 5, "enum1")]
+    # the largest family: complete to length 3 and one (seeded) third of length 4 in quick; complete to length 5 in thorough
+    fams = [enum_family(one, QUAD_NAMES, 4, "enum1", top_stride=3, offset=rng.randrange(3))] if quick \
+        else [enum_family(one, QUAD_NAMES, 5, "enum1")]
     two_cfgs = [cfg(("lru", 2), TTL, False, two="other"), cfg(("lru", 1), TTL, False, two="same", strict2=True),
                 cfg(("dict",), None, False, two="other", strict2=True), cfg(("pickle",), TTL, True, two="same", strict2=False)]
     qsel = ["num", "meta", "ctx"]
     for c2 in two_cfgs:
-        fams.append(enum_family(c2, qsel, 3 if quick else 4, "enum2"))
+        if quick:   # complete to length 2, a seeded half of length 3
+            fams.append(enum_family(c2, qsel, 3, "enum2", top_stride=2, offset=rng.randrange(2)))
+        else:
+            fams.append(enum_family(c2, qsel, 4, "enum2"))
         if not quick:
             fams.append(enum_family(c2, [q for q in QUAD_NAMES if q not in qsel], 3, "enum2"))
     if not quick:
         for c1 in (cfg(("lru", 1), TTL, True), cfg(("lru", BIG), None, False), cfg(("dict",), TTL, False), cfg(("pickle",), 0, True)):
             fams.append(enum_family(c1, qsel, 4, "enum1b"))
+    # engines with a role resolver (implementation vs implementation)
+    r_one = [rcfg(("lru", 2), TTL), rcfg(("lru", BIG), None, down1=True, asyn=True), rcfg(("dict",), TTL, graph1=GRAPH_FLAT),
+             rcfg(("pickle",), TTL, down1=True, strict=True)]
+    r_two = [rcfg(("lru", BIG), TTL, two="graph"), rcfg(("lru", 2), None, two="policy", asyn=True),
+             rcfg(("dict",), TTL, two="graph", graph1=GRAPH_FLAT, graph2=GRAPH_FULL, down1=True)]
+    fams.append(resolver_enum(r_one + r_two, 3 if quick else 4))
     for fam in fams:
         for ch in chunks(fam, 6000):
             if stop_early(chk):
                 break
             check_cases(chk, ch)
+    # exhaustive = the enumerated families named "complete" in chk.rule were run completely (quick: one-guard length <= 3,
+    # two-guard length <= 2, resolver length <= 3; the next length is a seeded residue class; thorough: everything named)
     chk.exhaustive = not stop_early(chk)
-    for gen in (pair_cases(), replacement_cases()):
+    chk.extra["enumerated_complete_to_length"] = ({"one_guard": 3, "two_guards": 2, "resolver": 3} if quick
+                                                  else {"one_guard": 5, "two_guards": 4, "resolver": 4})
+    for gen in (pair_cases(quick), replacement_cases()):
         for ch in chunks(gen, 6000):
             if not stop_early(chk):
                 check_cases(chk, ch)
@@ -888,5 +1078,8 @@ def run(chk):
         if not stop_early(chk):
             check_cases(chk, ch)
     for ch in chunks((random_history(rng, 8, 60) for _ in range(n_r)), 1500):
+        if not stop_early(chk):
+            check_cases(chk, ch)
+    for ch in chunks((resolver_random(rng, 6, 40) for _ in range(400 if quick else 6000)), 1500):
         if not stop_early(chk):
             check_cases(chk, ch)
